@@ -1,0 +1,27 @@
+//go:build verif
+
+// Contracts for contract-based deductive verification (govc, /verif).
+// This file contains comments only; it adds no code to the package.
+
+package mock
+
+//@ # sort.Strings on pairwise distinct strings yields a strictly ascending slice (assumed);
+//@ # distinctness of the collected map keys is proved below
+//@ spec func strLess(a string, b string) bool
+//@ extern func sort.Strings
+//@   requires forall i, j :: 0 <= i && i < j && j < len(x) ==> x[i] != x[j]
+//@   assigns elems(x)
+//@   ensures sorted: forall i, j :: 0 <= i && i < j && j < len(x) ==> strLess(x[i], x[j])
+
+//@ func (*store).Iterate
+//@   property C18
+//@   requires iterFunc != nil && cbErr == 0 && !cbStop && s.store != nil
+//@   ensures callback-error-returned: cbErr != 0 ==> ref(err) == cbErr
+//@   callassert StateIterFunc not-after-stop-or-error: cbErr == 0 && !cbStop
+//@   callassert StateIterFunc ascending: forall j :: 0 <= j && j < rangeindex ==> strLess(keys[j], k)
+//@   loop 1 invariant len(keys) <= cap(keys) && fresh(keys) && cbErr == 0 && !cbStop
+//@   loop 1 invariant forall j :: 0 <= j && j < len(keys) ==> visited(keys[j])
+//@   loop 1 invariant forall i, j :: 0 <= i && i < j && j < len(keys) ==> keys[i] != keys[j]
+//@   loop 2 assigns nothing
+//@   loop 2 invariant cbErr == 0 && !cbStop && 0 - 1 <= rangeindex && (rangeindex < len(keys) || len(keys) == 0 && rangeindex == 0 - 1)
+//@   loop 2 invariant forall i, j :: 0 <= i && i < j && j < len(keys) ==> strLess(keys[i], keys[j])
